@@ -100,7 +100,8 @@ AddrSeq(p, ch, j, cur) ==
        IN <<[a |-> cur + pd, n |-> n, p |-> pd, v |-> -1]>> \o AddrSeq(p, ch, j + 1, cur + pd + n)
 WithValues(p, lay) ==
   [j \in 1..Len(p) |-> IF IsRef(p[j]) THEN [lay[j] EXCEPT !.v = SymVal(p, lay, p[j].l)] ELSE lay[j]]
+VarIdx(p) == {j \in 1..Len(p) : p[j].k = "var"}
 Candidates(p, o) ==
-  {WithValues(p, AddrSeq(p, ch, 1, o)) : ch \in [1..Len(p) -> {VarShort, VarLong}]}
+  {WithValues(p, AddrSeq(p, ch, 1, o)) : ch \in [VarIdx(p) -> {VarShort, VarLong}]}
 Solvable(p, o) == \E lay \in Candidates(p, o) : Valid(p, o, lay)
 =============================================================================
